@@ -40,6 +40,7 @@ def elem(v, rep):
     """the value of an input: an integer in either representation, or a float determined by the integer input
     ('Half': the double v + 0.5, 'Flt': the double v; |v| <= 2^40 is assumed for these, so the value is an exact double)"""
     if rep in ('Small', 'Big'): return evalh.num(v, rep)
+    if rep == 'Nan': return Adt('Obj', 'Num', [Adt('NNum', 'Float', [F64(0, z3.RealVal(0), z3.BoolVal(False))])])          # the input is ignored: a NaN
     val = z3.ToReal(v) + (z3.RealVal('1/2') if rep == 'Half' else 0)
     return Adt('Obj', 'Num', [Adt('NNum', 'Float', [F64(3, val, z3.BoolVal(False))])])
 def rep_pre(v, rep): return [] if rep in ('Small', 'Big') else [v >= -(1 << 40), v <= (1 << 40)]
@@ -61,6 +62,7 @@ def env_for(E, spec):
 def lit(v, rep):
     if rep == 'Small': return fmt_int(v)
     if rep == 'Big': return fmt_big(v)
+    if rep == 'Nan': return '(0.0/0.0)'
     f = v + 0.5 if rep == 'Half' else float(v)
     return f'({f!r})'
 def shape_pair(prop, item, ob):
@@ -168,6 +170,32 @@ def family_C13(E=None):
     for n in (1, 2, 3):
         mk2(f'first n={n}', 'first(xs)', 'xs[0]', n); mk2(f'last n={n}', 'last(xs)', 'xs[-1]', n)
         mk2(f'scan n={n}', 'scan(xs, \\p, q -> p * 2 - q)', 'r := [xs[0]]; acc := xs[0]; for (e <- xs[1:]) (acc = acc * 2 - e; r append= acc); r', n)
+    # round 7: predicate forms on lists and streams (a path that does not terminate is replayed natively as a hang), folds over mixed
+    # int / float elements, kind preservation of the filter-like functions, distinct counting with NaNs
+    reg3 = reg2 + ('sum', 'product', 'any', 'all', 'reject', 'partition', 'in')
+    structs3 = dict(structs2, count_distinct=Adt('CountDistinct', None, []), set=Adt('Set', None, []))
+    def mk3(name, a, b, n=3, kind='list', reps=('Small', 'Small', 'Small'), observe='r__'):
+        P.append((name + f' n={n} {kind} {"/".join(reps[:n])}', a, b, dict(n=n, xs_kind=kind, reps=reps, registered=reg3, structs=structs3, observe=observe, builtins=ALLB + ('/',))))
+    DW = 'r := []; dr := 1; for (e <- xs) (if (dr and e > 0) null else (dr = 0; r append= e)); r'
+    for n in (0, 1, 2, 3):
+        mk3('drop while', 'drop(xs, \\k -> k > 0)', DW, n)
+        mk3('drop while', 'r := []; for (e <- drop(xs, \\k -> k > 0)) r append= e; r', DW, n, 'stream')
+        mk3('take while', 'r := []; for (e <- take(xs, \\k -> k > 0)) r append= e; r', 'r := []; ok := 1; for (e <- xs) (if (ok) (if (e > 0) r append= e else ok = 0)); r', n, 'stream')
+        mk3('any', 'any(xs, \\k -> k > 0)', 'r := 0; for (e <- xs) (if (e > 0) r = 1); r', n)
+        mk3('all', 'all(xs, \\k -> k > 0)', 'r := 1; for (e <- xs) (if (e > 0) null else r = 0); r', n)
+        mk3('reject', 'reject(xs, \\k -> k > 0)', 'r := []; for (e <- xs) (if (e > 0) null else r append= e); r', n)
+        mk3('partition', 'partition(xs, \\k -> k > 0)', 'p := []; q := []; for (e <- xs) (if (e > 0) p append= e else q append= e); [p, q]', n)
+    for n in (0, 1, 2):
+        mk3('filter over the keys of a set gives a list', 'filter(xs, \\k -> k > 0)', 'r := []; for (e <- xs) (if (e > 0) r append= e); r', n, 'dict')
+        mk3('reject over the keys of a set gives a list', 'reject(xs, \\k -> k > 0)', 'r := []; for (e <- xs) (if (e > 0) null else r append= e); r', n, 'dict')
+    for reps in (('Small', 'Small', 'Small'), ('Small', 'Half', 'Small'), ('Half', 'Small', 'Big'), ('Small', 'Nan', 'Small')):
+        for n in (0, 2, 3):
+            mk3('sum', 'sum(xs)', 's := 0; for (e <- xs) s += e; s', n, 'list', reps, observe='[r__, r__ is float]')
+            mk3('product', 'product(xs)', 'p := 1; for (e <- xs) p *= e; p', n, 'list', reps, observe='[r__, r__ is float]')
+    for reps in (('Small', 'Small', 'Small'), ('Nan', 'Small', 'Nan'), ('Small', 'Nan', 'Nan'), ('Half', 'Half', 'Small')):
+        for kind in ('list', 'vector'):
+            for n in (2, 3):
+                mk3('count_distinct == the number of keys of a dict built from the elements', 'count_distinct(xs)', 'd := {}; for (e <- xs) d[e] = 1; len(d)', n, kind, reps)
     for n in (1, 2, 3):
         mk(f'fold n={n}', 'fold(xs, \\p, q -> p * 2 - q)', 'acc := xs[0]; for (e <- xs[1:]) acc = acc * 2 - e; acc', n)
         for reps in (('Small', 'Big', 'Small'), ('Big', 'Small', 'Big')):
@@ -243,6 +271,7 @@ def family_C09():
     mk('|. adds a key with value null', f'r := {A} |. 5 |. y', f'r := {A}; r[5] = null; r[y] = null; r')
     mk('-. removes a key', f'r := {A} -. y -. 5', f'a := {A}; r := {{}}; for (k <- keys(a)) (if (k == y or k == 5) null else r[k] = a[k]); r')
     mk('assignment then lookup through an equal key', f'r := {{}}; r[x] = 1; r[y] = 2; r[z] += 10; r', f'r := {A}; r[z] = (if (z == y) 12 else (if (z == x) 11 else 13)); if (y == x) r[x] = (if (z == x) 12 else 2); r' if False else f'r := {{}}; r[x] = 1; r[y] = 2; r[z] = r[z] + 10; r')
+    P += [q for q in family_C13() if q[0].startswith('count_distinct')]          # count_distinct (lists and vectors, NaNs, floats) is also part of C09's list
     return P
 def family_C10():
     """the positional library functions == the corresponding index / slice expression, counts and indices symbolic"""
@@ -267,6 +296,27 @@ def family_C10():
                 mk('only', 'only(xs)', 'if (len(xs) == 1) xs[0] else throw 1', n, kind)
                 mk('!% == cyclic index', 'xs !% y', 'k := y; while (k < 0) k += len(xs); while (k >= len(xs)) k -= len(xs); xs[k]', n, kind) if False else None
     return [p for p in P if p]
+def family_C11():
+    """lazy maps / filters / zips of a finite stream: len, indexing and repeated use agree with iteration (xs is `stream([x, y, z])`)"""
+    structs = {'lazy_zip': Adt('LazyZip', None, []), 'first': Adt('First', None, []), 'last': Adt('Last', None, [])}
+    reg = ('len', 'lazy_map', 'lazy_filter', 'repeat', 'iota')
+    P = []
+    def mk(name, a, b, n=3): P.append((name + f' n={n}', a, b, dict(n=n, xs_kind='stream', registered=reg, structs=structs)))
+    CNT = 'c := 0; for (e <- s) c += 1; c'
+    for n in (0, 1, 3):
+        mk('len of a lazy map == the number of elements iterated', 's := xs lazy_map (\\k -> [k]); len(s)', 's := xs lazy_map (\\k -> [k]); ' + CNT, n)
+        mk('len of a lazy filter', 's := xs lazy_filter (\\k -> k > 0); len(s)', 's := xs lazy_filter (\\k -> k > 0); ' + CNT, n)
+        mk('len of a lazy zip of two finite streams', 's := xs lazy_zip (xs lazy_map (\\k -> [k])); len(s)', 's := xs lazy_zip (xs lazy_map (\\k -> [k])); ' + CNT, n)
+        mk('len of a lazy zip with an infinite stream', 's := xs lazy_zip repeat(7); len(s)', 's := xs lazy_zip repeat(7); ' + CNT, n)
+        mk('len of a lazy zip with an infinite stream on the left', 's := iota(5) lazy_zip xs; len(s)', 's := iota(5) lazy_zip xs; ' + CNT, n)
+        mk('elements of a lazy zip', 'r := []; for (e <- xs lazy_zip repeat(7)) r append= e; r', 'r := []; for (e <- xs) r append= [e, 7]; r', n)
+        mk('elements of a lazy map', 'r := []; for (e <- xs lazy_map (\\k -> [k, 1])) r append= e; r', 'r := []; for (e <- xs) r append= [e, 1]; r', n)
+        mk('elements of a lazy filter', 'r := []; for (e <- xs lazy_filter (\\k -> k > 0)) r append= e; r', 'r := []; for (e <- xs) (if (e > 0) r append= e); r', n)
+        mk('index into a lazy map', '(xs lazy_map (\\k -> [k]))[y]', 'l := []; for (e <- xs) l append= [e]; l[y]', n)
+        mk('iterating twice gives the same elements (the variable is not advanced)', 's := xs lazy_map (\\k -> [k]); a := []; for (e <- s) a append= e; b := []; for (e <- s) b append= e; [a, b, len(s)]',
+           'l := []; for (e <- xs) l append= [e]; [l, l, len(l)]', n)
+        mk('first and last do not advance the stream', 'a := first(xs); b := last(xs); c := first(xs); [a, b, c, len(xs)]', '[xs[0], xs[-1], xs[0], len(xs)]', n)
+    return P
 def family_C12():
     """comparison-chain patterns and switch arm selection == the explicit test"""
     structs = {'<': Adt('ComparisonOperator', None, [evalh.sbytes('<'), Seq([]), Opaque('cmpfn')])} if False else {}
@@ -279,7 +329,7 @@ def family_C12():
     mk('one slot, one literal', 'switch (x) case _ < 3 -> "small" case _ -> "big"', 'if (x < 3) "small" else "big"')
     return P
 
-FAMILIES = {'C04': family_C04, 'C17': family_C17, 'C13': family_C13, 'C01': family_C01, 'C05': family_C05, 'C09': family_C09, 'C10': family_C10, 'C12': family_C12}
+FAMILIES = {'C04': family_C04, 'C17': family_C17, 'C13': family_C13, 'C01': family_C01, 'C05': family_C05, 'C09': family_C09, 'C10': family_C10, 'C11': family_C11, 'C12': family_C12}
 def items_for(prop): return [('pair', (prop, i)) for i in range(len(FAMILIES[prop]()))]
 def run_item(item, ob):
     prop, i = item[1]
